@@ -475,9 +475,13 @@ theorem newIdx_fresh (n : Node) (idx : Nat)
     simp at this
     exact this.2
 
-theorem sessOp_addnoc_noRef (cfg : Cfg) (n : Node) (sid s ca fid node subj ser : Nat) (mode : Mode) (h : NoRef n) :
-    NoRef (sessOp cfg n sid mode (.addnoc s ca fid node subj ser)).1 := by
-  simp only [sessOp]
+theorem storeResum_noRef (n : Node) (h : NoRef n) : NoRef (storeResum n).1 := by
+  have ⟨hfr, _⟩ := storeResum_spec n
+  exact noRef_fields hfr.fabrics hfr.sessions hfr.resum h
+
+theorem addNoc_noRef (cfg : Cfg) (n : Node) (sid ca fid node subj ser : Nat) (mode : Mode) (h : NoRef n) :
+    NoRef (addNoc cfg n sid mode ca fid node subj ser).1 := by
+  simp only [addNoc]
   split
   · exact h
   · split
@@ -530,6 +534,11 @@ theorem sessOp_addnoc_noRef (cfg : Cfg) (n : Node) (sid s ca fid node subj ser :
                       exact noRef_mono (n := n) (hmono _) (fun s' hs' he _ => ⟨s', hs', he, rfl⟩)
                         (fun r' hr' => ⟨r', hr', rfl⟩) h
 
+theorem sessOp_addnoc_noRef (cfg : Cfg) (n : Node) (sid s ca fid node subj ser : Nat) (mode : Mode) (h : NoRef n) :
+    NoRef (sessOp cfg n sid mode (.addnoc s ca fid node subj ser)).1 :=
+  sessOp_addnoc_lift (P := NoRef) cfg n sid s ca fid node subj ser mode
+    (fun m hm => storeResum_noRef m hm) (fun m hm => addNoc_noRef cfg m sid ca fid node subj ser mode hm) h
+
 theorem sessOp_updnoc_noRef (cfg : Cfg) (n : Node) (sid s node ser : Nat) (mode : Mode) (h : NoRef n) :
     NoRef (sessOp cfg n sid mode (.updnoc s node ser)).1 := by
   simp only [sessOp]
@@ -539,6 +548,16 @@ theorem sessOp_updnoc_noRef (cfg : Cfg) (n : Node) (sid s node ser : Nat) (mode 
     | (rename_i f _
        refine noRef_congr (n := n) (fun i => ?_) rfl rfl h
        exact hasIdx_map_set n.fabrics { f with node := node, ser := ser } i)
+
+/-- the undo of the first write of a failed CommissioningComplete touches the store only -/
+theorem undoAdded_frame (n : Node) (idx : Nat) : Frame n (undoAdded n idx) := by
+  unfold undoAdded
+  split
+  · exact (removeFabricKey_spec n idx).1
+  · exact Frame.refl n
+
+theorem undoAdded_noRef (n : Node) (idx : Nat) (h : NoRef n) : NoRef (undoAdded n idx) :=
+  noRef_fields (undoAdded_frame n idx).fabrics (undoAdded_frame n idx).sessions (undoAdded_frame n idx).resum h
 
 theorem sessOp_complete_noRef (cfg : Cfg) (n : Node) (sid s : Nat) (mode : Mode) (h : NoRef n) :
     NoRef (sessOp cfg n sid mode (.complete s)).1 := by
@@ -568,7 +587,7 @@ theorem sessOp_complete_noRef (cfg : Cfg) (n : Node) (sid s : Nat) (mode : Mode)
           simp only at b1 b2 b3
           have h4 : NoRef n4 := noRef_fields b1 b2 b3 h3
           cases b4 with
-          | false => exact noRef_fields rfl rfl rfl h4
+          | false => exact undoAdded_noRef _ f.idx (noRef_fields rfl rfl rfl h4)
           | true =>
             simp only [ok]
             refine noRef_mono (n := n4) (fun i hi => hi) ?_ (fun r' hr' => ⟨r', hr', rfl⟩) h4
@@ -639,10 +658,18 @@ theorem noRef_flag_map {n : Node} (g : Sess → Sess) (hg : ∀ s, (g s).mode = 
 theorem noRef_fresh (now g : Nat) : NoRef ({ now := now, nextGen := g } : Node) :=
   ⟨fun s hs _ _ => absurd hs (by simp), fun r hr => absurd hr (by simp)⟩
 
-/-- **`NoRef` is an invariant of every operation** - whatever the store answers, whichever session
-issues the command - except the factory reset (which does not touch the session table; the node is
-expected to restart after it). -/
-theorem step_noRef (cfg : Cfg) (n : Node) (op : Op) (h : NoRef n) (hop : op ≠ .freset) :
+/-- after a factory reset - hit by a store fault or not - nothing refers to a fabric at all -/
+theorem factoryReset_noRef (n : Node) : NoRef (factoryReset n).1 := by
+  have ⟨_, h2, h3, _⟩ := factoryReset_mem n
+  refine ⟨fun s hs _ hf0 => ?_, fun r hr => ?_⟩
+  · rw [h2, List.mem_filter] at hs
+    exact absurd (by simpa using hs.2) hf0
+  · rw [h3] at hr; cases hr
+
+/-- **`NoRef` is an invariant of EVERY operation** - whatever the store answers, whichever session
+issues the command, the factory reset included (since the repo fix of
+`C07-factory-reset-keeps-sessions` it drops the sessions and resumption records of the fabrics). -/
+theorem step_noRef (cfg : Cfg) (n : Node) (op : Op) (h : NoRef n) :
     NoRef (step cfg n op).1 := by
   cases hso : isSessOp op with
   | some sid =>
@@ -764,17 +791,16 @@ theorem step_noRef (cfg : Cfg) (n : Node) (op : Op) (h : NoRef n) (hop : op ≠ 
       rw [hr] at this
       cases e <;> exact this
     | flush =>
-      simp only [step, isSessOp, kvTick]
-      by_cases f0 : n.failIn = 0
-      · simp only [f0, if_true]; exact noRef_fields rfl rfl rfl h
-      · by_cases f1 : n.failIn = 1
-        · simp only [f1]; exact noRef_fields rfl rfl rfl h
-        · simp only [f0, f1, if_false]; exact noRef_fields rfl rfl rfl h
+      simp only [step, isSessOp]
+      have h1 := storeResum_noRef n h
+      rcases hst : storeResum n with ⟨n1, b⟩
+      rw [hst] at h1
+      cases b <;> exact h1
     | restart => exact restartFrom_noRef n _ _
     | crash k => exact restartFrom_noRef n _ _
     | corrupt => exact restartFrom_noRef n _ _
     | kvfail k => exact noRef_fields rfl rfl rfl h
-    | freset => exact absurd rfl hop
+    | freset => exact factoryReset_noRef n
     | _ => simp [isSessOp] at hso
 
 theorem noRef_init : NoRef ({} : Node) :=
